@@ -102,6 +102,9 @@ func randCfg(r *rng, tiny bool) chainCfg {
 			cfg.whitelist = append(cfg.whitelist, i)
 		}
 	}
+	if r.chance(1, 3) { // a chain whose genesis numbering does not start at 1 (restarted from an export, a fork)
+		cfg.startPO, cfg.startWrk, cfg.startBcn = uint64(2+r.intn(30)), uint64(2+r.intn(30)), uint64(2+r.intn(30))
+	}
 	return cfg
 }
 
